@@ -23,8 +23,8 @@ type ABranch struct {
 	GuardScribbles bool `json:"guardScribbles,omitempty"`
 	// GuardInPlace: the native guard applies its program to the map it is
 	// given (deleting and overwriting keys there) and returns that map.
-	GuardInPlace bool `json:"guardInPlace,omitempty"`
-	Target      string      `json:"target,omitempty"`
+	GuardInPlace bool   `json:"guardInPlace,omitempty"`
+	Target       string `json:"target,omitempty"`
 }
 
 // ANode is an abstract node.
@@ -44,12 +44,19 @@ type ASpec struct {
 	ActionErrorBranches bool              `json:"actionErrorBranches,omitempty"`
 	ActionErrorNode     string            `json:"actionErrorNode,omitempty"`
 	NoAutoErrorNode     bool              `json:"noAutoErrorNode,omitempty"`
+	// Hints for the message generator: values that actions compute
+	// (candidates for pattern variables) and whole messages that lead
+	// somewhere interesting.
+	Hints    []interface{} `json:"hints,omitempty"`
+	HintMsgs []interface{} `json:"hintMsgs,omitempty"`
 }
 
 // Interpreters used by every check.
 func Interpreters() core.InterpretersMap {
 	es := ecmascript.NewInterpreter()
-	return core.InterpretersMap{"ecmascript": es, "": es}
+	ext := ecmascript.NewInterpreter()
+	ext.Extended = true
+	return core.InterpretersMap{"ecmascript": es, "": es, "ecmascript-ext": ext, "goja": ext}
 }
 
 // Build makes an (uncompiled) core.Spec from Go structures.
@@ -67,7 +74,7 @@ func (a *ASpec) Build() *core.Spec {
 				}
 				n.Action = an.Action.Native(mode)
 			} else {
-				n.ActionSource = &core.ActionSource{Interpreter: "ecmascript", Source: an.Action.ES()}
+				n.ActionSource = &core.ActionSource{Interpreter: an.Action.Interp(), Source: an.Action.ES()}
 			}
 		}
 		if !an.NoBranching {
@@ -88,7 +95,7 @@ func (a *ASpec) Build() *core.Spec {
 						}
 						b.Guard = ab.Guard.Native(mode)
 					} else {
-						b.GuardSource = &core.ActionSource{Interpreter: "ecmascript", Source: ab.Guard.ES()}
+						b.GuardSource = &core.ActionSource{Interpreter: ab.Guard.Interp(), Source: ab.Guard.ES()}
 					}
 				}
 				n.Branches.Branches = append(n.Branches.Branches, b)
@@ -139,6 +146,9 @@ type SpecOpts struct {
 	// ArrayVar: a message branch whose pattern has an array with a
 	// variable in front of a constant (single candidate per message).
 	ArrayVar bool
+	// Ext: an action keeps the result of the extended interpreter's
+	// _.match helper in the bindings and a branch looks inside it.
+	Ext bool
 	// IneqBound: an action binds an inequality variable to an integer
 	// and a message branch uses it.
 	IneqBound bool
@@ -370,7 +380,6 @@ func genBindingsPattern(t *rapid.T, label string) interface{} {
 	return m
 }
 
-
 // Instantiate replaces the variables of a pattern by values.
 func Instantiate(t *rapid.T, p interface{}, label string, produced ...interface{}) interface{} {
 	switch pv := p.(type) {
@@ -424,6 +433,10 @@ func GenMessageFor(t *rapid.T, a *ASpec, label string) interface{} {
 				pats = append(pats, b.Pattern)
 			}
 		}
+	}
+	produced = append(produced, a.Hints...)
+	if len(a.HintMsgs) > 0 && rapid.IntRange(0, 3).Draw(t, label+".hint") == 0 {
+		return jsongen.Copy(rapid.SampledFrom(a.HintMsgs).Draw(t, label+".hm"))
 	}
 	if len(pats) == 0 || rapid.IntRange(0, 3).Draw(t, label+".rnd") == 0 {
 		return GenMessage(t, label)
@@ -555,6 +568,37 @@ func GenLivelySpec(t *rapid.T, o SpecOpts) *ASpec {
 		mn := a.Nodes[rapid.SampledFrom(mnodes).Draw(t, "bindvar.m")]
 		mn.Branches = append([]ABranch{{HasPattern: true, Pattern: map[string]interface{}{"c": "?p"}, Target: rapid.SampledFrom(all).Draw(t, "bindvar.to")}}, mn.Branches...)
 	}
+	if o.Ext && rapid.Bool().Draw(t, "ext") {
+		an := a.Nodes[rapid.SampledFrom(anodes).Draw(t, "ext.a")]
+		{
+			src := rapid.SampledFrom([]string{"x", "y", "l"}).Draw(t, "ext.src")
+			val := map[string]interface{}{"a": jsongen.Value(t, jsongen.Opts{Depth: 1, Width: 2, Nums: []float64{0, 1, 2, 0.5}, Strs: []string{"a", "b"}, Keys: []string{"a", "b"}, SetLike: true}, "ext.v"), "b": 1.0}
+			var pat interface{} = map[string]interface{}{"a": "?w"}
+			var srcVal interface{} = val
+			// (one result only: the order of several results is not
+			// fixed, so keeping them would make the state arbitrary)
+			an.Action.Ops = append(append([]Op{}, an.Action.Ops...), Op{Op: "set", K: src, V: srcVal}, Op{Op: "matchStore", K: "found", Keys: []string{src}, V: pat})
+			result := []interface{}{map[string]interface{}{"?w": val["a"]}}
+			a.Hints = append(a.Hints, result)
+			to := rapid.SampledFrom(all).Draw(t, "ext.to")
+			mn := a.Nodes[rapid.SampledFrom(mnodes).Draw(t, "ext.m")]
+			if rapid.Bool().Draw(t, "ext.whole") {
+				// the whole result becomes the value of a pattern variable,
+				// which a message branch uses later (after a message boundary)
+				an.Branches = append([]ABranch{{HasPattern: true, Pattern: map[string]interface{}{"found": "?found"}, Target: rapid.SampledFrom(mnodes).Draw(t, "ext.wto")}}, an.Branches...)
+				mn.Branches = append([]ABranch{{HasPattern: true, Pattern: map[string]interface{}{"c": "?found"}, Target: to}}, mn.Branches...)
+				a.HintMsgs = append(a.HintMsgs, map[string]interface{}{"c": result})
+			} else {
+				// a node without action looks inside the kept result, after
+				// a message boundary
+				a.Nodes["r1"] = &ANode{BranchType: "bindings", Branches: []ABranch{
+					{HasPattern: true, Pattern: map[string]interface{}{"found": []interface{}{"?fv"}}, Target: to},
+					{Target: rapid.SampledFrom(mnodes).Draw(t, "ext.rdef")}}}
+				mn.Branches = append([]ABranch{{HasPattern: true, Pattern: map[string]interface{}{"goto": "r1"}, Target: "r1"}}, mn.Branches...)
+				a.HintMsgs = append(a.HintMsgs, map[string]interface{}{"goto": "r1"})
+			}
+		}
+	}
 	if o.IneqBound && rapid.Bool().Draw(t, "ineq") {
 		// an action computes an integer bound for an inequality variable;
 		// a message branch then compares against it
@@ -575,7 +619,6 @@ func GenLivelySpec(t *rapid.T, o SpecOpts) *ASpec {
 	}
 	return a
 }
-
 
 // MessagePatterns lists the patterns of the spec's message branches.
 func MessagePatterns(a *ASpec) []interface{} {
@@ -608,7 +651,7 @@ func (a *ASpec) Doc(yamlKeys, jsonSyntax bool) map[string]interface{} {
 		return jsonName
 	}
 	source := func(p *Prog) map[string]interface{} {
-		return map[string]interface{}{"interpreter": "ecmascript", "source": p.ES()}
+		return map[string]interface{}{"interpreter": p.Interp(), "source": p.ES()}
 	}
 	doc := map[string]interface{}{"name": a.Name}
 	if a.ActionErrorBranches {
